@@ -19,6 +19,8 @@ CACHE_DIR = os.path.join(os.path.dirname(HERE), '.cache')
 
 
 def _shapes(S: Shapes, tier: str, seed: int):
+    if tier == 'selftest':
+        return S.mini()
     hs = S.quick()
     if tier == 'thorough':
         hs = hs + S.depth(2)[len(S.leaves()):] + S.sample_depth3(3000, seed)
@@ -140,16 +142,21 @@ def sweep(repo: Repo, tier: str = 'quick', seed: int = 0, jobs: int | None = Non
     h.update(f'{tier}:{seed}'.encode())
     key = h.hexdigest()[:24]
     path = os.path.join(CACHE_DIR, f'sweep-{key}.json')
-    if os.path.exists(path) and not os.environ.get('VERIF_NO_CACHE'):
+    if tier != 'selftest' and os.path.exists(path) and not os.environ.get('VERIF_NO_CACHE'):
         try:
             with open(path) as fh:
                 return json.load(fh)
         except Exception:
             pass
-    jobs = jobs or min(16, os.cpu_count() or 4)
-    parts = _run_workers(repo, tier, seed, jobs)
+    if tier == 'selftest':
+        parts = [_worker((repo.root, repo.overlay, tier, seed, 0, 1))]   # in-process: the self-test is parallel already
+    else:
+        jobs = jobs or min(8, os.cpu_count() or 4)
+        parts = _run_workers(repo, tier, seed, jobs)
     out = [d for p in parts for d in p]
     out.sort(key=lambda d: (d['shape'], d['is_random']))
+    if tier == 'selftest':
+        return out
     try:
         os.makedirs(CACHE_DIR, exist_ok=True)
         tmp = path + f'.{os.getpid()}.tmp'
